@@ -212,14 +212,17 @@ theorem step_str (input : Bytes) (cur : Nat) (l : L) (h : Good input cur l)
   · rename_i hr
     have hne : rAt l ≠ eof := ne_eof_of (p := fun r => r == 92) hr (by decide)
     have hw := wAt_pos l hne
-    refine next_good rfl (by simpa using h2) rfl h3 h6 (by simp; omega) (by simpa using hle) ?_ ?_
-    · simp [StInv]; omega
-    · simp [mu, effPos, stC, hs] <;> omega
+    split
+    · exact Or.inr (res_error _ l.start _ rfl rfl h3 (by omega) (by decide))
+    · refine next_good rfl (by simpa using h2) rfl h3 h6 (by simp; omega) (by simpa using hle) ?_ ?_
+      · simp [StInv]; omega
+      · simp [mu, effPos, stC, hs] <;> omega
   split
   · rename_i hr
-    have hne : rAt l ≠ eof := ne_eof_of (p := fun r => r == runeError) hr (by decide)
+    have hne : rAt l ≠ eof :=
+      ne_eof_of (p := fun r => r == runeError) (by simp only [Bool.and_eq_true] at hr; exact hr.1) (by decide)
     have hw := wAt_pos l hne
-    refine next_good rfl rfl rfl h3 h6 (by simp; omega) (by simpa using hle) ?_ ?_
+    refine next_good rfl (by simpa using h2) rfl h3 h6 (by simp; omega) (by simpa using hle) ?_ ?_
     · simp [StInv, hs]; omega
     · simp [mu, effPos, stC, hs] <;> omega
   split
